@@ -418,4 +418,53 @@ theorem splitTexRaw_flat (sep : Sep) (s : Str) (hb : depthAfter 0 s = some 0) (h
   exact splitLoop_flat sep (s.length + 1) s none (by omega) hb (Or.inl hne)
 
 
+/-! ### chunks without a separator match are copied -/
+
+/-- no separator match at brace level 0 inside `x` when `x` is followed by `rest` -/
+def NoSep (sep : Sep) (rest : Str) : Nat → Option Char → Str → Prop
+  | _, _, [] => True
+  | d, prev, c :: r =>
+    if c = '{' then NoSep sep rest (d + 1) none r
+    else if c = '}' then NoSep sep rest (d - 1) none r
+    else if d ≠ 0 then NoSep sep rest d none r
+    else sepMatch sep prev (c :: (r ++ rest)) = 0 ∧ NoSep sep rest 0 (some c) r
+
+/-- the look-behind after `x` -/
+def prevAfter : Nat → Option Char → Str → Option Char
+  | _, prev, [] => prev
+  | d, _, c :: r =>
+    if c = '{' then prevAfter (d + 1) none r
+    else if c = '}' then prevAfter (d - 1) none r
+    else if d ≠ 0 then prevAfter d none r
+    else prevAfter 0 (some c) r
+
+theorem flat_noSep (sep : Sep) (rest : Str) : ∀ (x : Str) (d : Nat) (prev : Option Char) (cur : Str),
+    NoSep sep rest d prev x →
+    flat sep d prev cur (x ++ rest) = flat sep (depthSat d x) (prevAfter d prev x) (cur ++ x) rest := by
+  intro x
+  induction x with
+  | nil => intro d prev cur _; simp [depthSat, prevAfter]
+  | cons c r ih =>
+    intro d prev cur h
+    simp only [List.cons_append]
+    by_cases h1 : c = '{'
+    · subst h1
+      simp only [NoSep, if_true] at h
+      rw [flat_open, ih _ _ _ h]
+      simp [depthSat, prevAfter]
+    · by_cases h2 : c = '}'
+      · subst h2
+        simp only [NoSep, show ¬ ('}' = '{') by decide, if_false, if_true] at h
+        rw [flat_close, ih _ _ _ h]
+        simp [depthSat, prevAfter]
+      · by_cases hd : d = 0
+        · subst hd
+          simp only [NoSep, if_neg h1, if_neg h2, ne_eq, not_true_eq_false, if_false] at h
+          rw [flat_char sep prev cur _ h1 h2 h.1, ih _ _ _ h.2]
+          simp [depthSat, prevAfter, h1, h2]
+        · simp only [NoSep, if_neg h1, if_neg h2, ne_eq, hd, not_false_eq_true, if_true] at h
+          rw [flat_deep sep prev cur _ hd h1 h2, ih _ _ _ h]
+          simp [depthSat, prevAfter, h1, h2, hd]
+
+
 end Pybtex.C02
